@@ -16,9 +16,14 @@ with EVERY compound assignment of ParseSubstitution (`+= -= *= **= /= \\= %= <<=
 `for` headers (lifteng.Render.rich_leaf).  The harness prints each lifted
 assignment in a canonical prefix form (target, operator, operands in order); it
 must equal the plain assignment `x[..] = x[..] op e` given by the specification
-(Spec.SurfaceSpec.expected_statement, extracted; proved to mean the compound
-assignment under every interpretation of the operators) - failing input
-otherwise - and the mirror Model.Shortcuts.parse_substitution (correspondence)."""
+(Spec.SurfaceSpec.expected_statement, extracted) - failing input otherwise - and
+the mirror Model.Shortcuts.parse_substitution (correspondence).  Second audit:
+expected_statement and parse_substitution are the same function written twice
+(Proofs.SurfaceProofs.parse_substitution_is_expected_statement, by reflexivity),
+so the two comparisons are ONE comparison made twice: a mirror disagreement
+never occurs without the failing input, and only one theorem about the
+expansion is an obligation (C13_compound_mirror_sem: the expansion means the
+compound assignment under every interpretation of the operators)."""
 import json
 import os
 
@@ -109,10 +114,13 @@ def run(ctx, proofs):
     nontrivial = set()
     samples = []
     # the block lists themselves (the theorem speaks about Model.Lift.lift)
+    ssa_skipped = 0     # `# ssa skipped` is accepted by cfg_compare: counted (the claim of C13 is about the graph after into_cfg)
     for case, impl, model in lifteng.run_cfg(common, small + big):
         d = lifteng.cfg_compare(case, impl, model)
         if d is not None:
             disagreements.append(d)
+        if impl.endswith(" # ssa skipped"):
+            ssa_skipped += 1
     for part, bound in ((small, bound_small), (big, bound_big)):
         for case, impl, model in lifteng.run_walk(common, part, bound):
             if not (impl.startswith("W ") and model.startswith("T ") and " # W " in model):
@@ -199,6 +207,10 @@ def run(ctx, proofs):
         "compound_kinds_rule": "operator (12 op= tokens, ++, --) x target (scalar, a[i], a[i][j]) x position (statement, for "
                                "header); each lifted assignment compared, operands in order, with Spec.SurfaceSpec.expected_statement",
         "compound_kinds_least_seen": sorted(form_kinds.items(), key=lambda kv: kv[1])[:3],
+        "compound_comparisons": "ONE comparison per lifted assignment (implementation vs x[..] = x[..] op e); it is made against "
+                                "Spec.SurfaceSpec.expected_statement and against Model.Shortcuts.parse_substitution, which are the "
+                                "same function (parse_substitution_is_expected_statement) - not two independent checks",
+        "into_ssa_skipped_by_driver": ssa_skipped,
         "samples": [disagreements[0]] if disagreements else samples,
         "disagreements_model_vs_impl": len(disagreements),
         "spec_failures": len(failing),
@@ -245,7 +257,9 @@ def run(ctx, proofs):
         "the parser turns every compound assignment into the plain assignment of Spec.SurfaceSpec.expected_statement "
         "(= Model.Shortcuts.parse_substitution): observed on every rendered compound assignment (all 14 operators, scalar and "
         "array-element targets, statement and for-header position), operand order included; that this assignment means the "
-        "compound one is proved (C13_compound_expansion_sem); the token -> opcode table used to render the operators "
+        "compound one is proved (C13_compound_mirror_sem; expected_statement and parse_substitution are one function written "
+        "twice, so `implementation vs specification` and `implementation vs mirror` in lifteng.forms_compare are the same "
+        "comparison); the token -> opcode table used to render the operators "
         "is lifteng.COMPOUND_OPS (trusted, 12 lines)",
         "the bounded enumeration of decision lists is only the violation search; the claim for all decision lists is the theorem",
         "Model.LiftFull (content-carrying lifting mirror: renaming, AST -> IR with metas, blocks, declarations) is tied to "
